@@ -36,8 +36,15 @@ def nts_shaped(rng):
         ln = 4 + len(body)
         return bytes([t >> 8, t & 255, ln >> 8, ln & 255]) + body
     out = bytes(hdr) + ef(0x0104, rnd(32))
-    if rng.random() < 0.7:
+    r = rng.random()
+    if r < 0.45:
         out += ef(0x0204, rnd(rng.choice([100, 104, 136, 40, 20])))
+    elif r < 0.8:
+        # a cookie body that starts with a key id the server's key set can hold (small ids) and has a length
+        # around the decoder's minimum (id 4 + ciphertext length 2 + nonce 16): every length guard and slice of
+        # decode_cookie is exercised (added after a seeded change that weakened that guard)
+        n = rng.choice([4, 6, 8, 16, 19, 20, 20, 21, 21, 22, 22, 23, 24, 26, 38, 40])
+        out += ef(0x0204, bytes([0, 0, 0, rng.choice([0, 0, 1, 2])]) + rnd(n - 4))
     if v == 5 and rng.random() < 0.7:
         out += ef(0xF5FF, P.DRAFT + b"\x00" * ((4 - len(P.DRAFT) % 4) % 4))
     nl, cl = rng.choice([16, 16, 16, 12, 0, 32]), rng.choice([16, 32, 48, 20])
